@@ -1549,6 +1549,7 @@ func (a *Area) FromFeature(f *ingest.AreaFeature, s *encoding.StringTableBuilder
 				}
 			}
 		}
+		a.Polygons = polygons
 	}
 }
 
